@@ -331,6 +331,9 @@ def goal_kinds(program, rb, ns, g0, I, out, pid, text):
     return recs
 
 
+KINDS_QUICK = {"g01_geometric", "g03_two_flags", "g07_exit_draw", "g09_single_if_body"}   # the goal-kind leg is dominated by sympy's limit_seq
+
+
 def main():
     run = Run("C09", "translation_validation")
     items = []
@@ -343,7 +346,7 @@ def main():
     guard_ids = {p[0] for p in families.corpus("corpus_guard")}
     for pid, text, goals in progs:
         if goals:
-            items.append({"id": pid, "text": text, "goals": goals, "N": N, "goal_timeout": 30 if run.quick else 90, "kinds": pid in guard_ids or not run.quick})
+            items.append({"id": pid, "text": text, "goals": goals, "N": N, "goal_timeout": 30 if run.quick else 90, "kinds": (pid in KINDS_QUICK) if run.quick else (pid in guard_ids)})
     if run.args.only:
         items = [i for i in items if run.args.only in i["id"]]
     results = jobs.run_jobs(job, items, timeout=400 if run.quick else 1200)
